@@ -157,6 +157,8 @@ def gen_json_tree(rng: random.Random, depth: int = 0) -> Any:
         return rng.choice([
             None, True, False, 0, 1, -1, 7, 2 ** 62, -(2 ** 70), 10 ** 30, 0.5, -2.25, 1e300, 5e-324, 1e-7, 0.1,
             "", "a", "5", "abc", "ünï©ødé ∆ 𝄞", "line\nbreak\t\"q\"\\", "\x00\x1f", " 12 ", "true", "null",
+            # strings whose text happens to be JSON: they are strings, not documents
+            '{"a": 1}', '["x", "y"]', "[]", "{}", "[1, 2]", '"q"', '{"k": {"n": 1}}', "[7]",
         ])
     if r < 0.8:
         return [gen_json_tree(rng, depth + 1) for _ in range(rng.randint(0, 4))]
@@ -304,7 +306,23 @@ def gen_c08_case(rng: random.Random) -> Dict[str, Any]:
         positional = pos_idx is not None and pos_idx < npos
         if positional or not p["default"] or rng.random() < 0.7:
             supplied[p["name"]] = {"v": gen_value_for(rng, p["ann"]), "pos": positional}
+    variadic: Dict[str, Any] = {}
+    if rng.random() < 0.2:
+        simple = ["none", "none", "int", "float", "str", "Any", "Model", "List[int]"]
+        nonkw = [p for p in params if not p["kwonly"]]
+        if rng.random() < 0.7 and not any(p.get("dep") for p in nonkw):
+            # def f(a, b, *rest, k=...): every named positional parameter is filled positionally, the rest is collected
+            for p in nonkw:
+                if p["name"] not in supplied:
+                    supplied[p["name"]] = {"v": gen_value_for(rng, p["ann"]), "pos": True}
+                supplied[p["name"]]["pos"] = True
+            ann = rng.choice(simple)
+            variadic["star"] = {"ann": ann, "vals": [gen_value_for(rng, ann) for _ in range(rng.randint(0, 3))]}
+        if rng.random() < 0.6:
+            ann = rng.choice(simple)
+            variadic["dstar"] = {"ann": ann, "vals": {f"zz{i}": gen_value_for(rng, ann) for i in range(rng.randint(0, 2))}}
     return {
+        "variadic": variadic,
         "params": params, "supplied": supplied, "async": rng.random() < 0.6,
         "validate": rng.random() < 0.75, "fmt": rng.choice(FORMATS), "late_register": rng.random() < 0.3,
         # an earlier message for the same task on the same worker whose values cannot be converted
@@ -335,9 +353,17 @@ def build_fn(case: Dict[str, Any]) -> Any:
     parts = []
     star_done = False
     names = []
+    va = case.get("variadic") or {}
+
+    def _star() -> str:
+        if "star" not in va:
+            return "*"
+        a = va["star"]["ann"]
+        return "*rest" if a == "none" else f"*rest: {a}"
+
     for p in case["params"]:
         if p["kwonly"] and not star_done:
-            parts.append("*")
+            parts.append(_star())
             star_done = True
         if p.get("dep") == "ctx":
             parts.append(f"{p['name']}: Context = TaskiqDepends()")
@@ -355,7 +381,13 @@ def build_fn(case: Dict[str, Any]) -> Any:
             d = " = 'DEFAULT'" if p["default"] else ""
             parts.append(f"{p['name']}{a}{d}")
             names.append(p["name"])
-    body = "{" + ", ".join(f"{n!r}: {n}" for n in names) + "}"
+    if "star" in va and not star_done:
+        parts.append(_star())
+    if "dstar" in va:
+        a = va["dstar"]["ann"]
+        parts.append("**extra" if a == "none" else f"**extra: {a}")
+    body = "{" + ", ".join([f"{n!r}: {n}" for n in names] + (["'*rest': list(rest)"] if "star" in va else [])
+                           + (["'**extra': dict(extra)"] if "dstar" in va else [])) + "}"
     src = f"{'async ' if case['async'] else ''}def gen_task({', '.join(parts)}):\n    _REC.append({body})\n    return 1\n"
     exec(src, ns)  # noqa: S102
     fn = ns["gen_task"]
@@ -444,6 +476,11 @@ def _run_c08_inner(case: Dict[str, Any], fn: Any, src: str, broker: Any, early_r
             args.append(dec(s["v"]))
         else:
             kwargs[p["name"]] = dec(s["v"])
+    va = case.get("variadic") or {}
+    if "star" in va:
+        args.extend(dec(x) for x in va["star"]["vals"])
+    if "dstar" in va:
+        kwargs.update({k: dec(x) for k, x in va["dstar"]["vals"].items()})
     obs: Dict[str, Any] = {"src": src.splitlines()[0], "args": jsonable([prepared(a) for a in args]),
                            "kwargs": jsonable({k: prepared(x) for k, x in kwargs.items()})}
     try:
@@ -508,6 +545,14 @@ def _run_c08_inner(case: Dict[str, Any], fn: Any, src: str, broker: Any, early_r
             ):
                 kind = "annotation-applied-to-wrong-positional"  # the F1 mechanism
             v.append(Violation(kind, f"param {p['name']} ({p.get('ann') or p.get('dep')}) received {g!r} ({type(g).__name__}), expected {want!r} ({type(want).__name__}); signature {src.splitlines()[0]}; args={args!r} kwargs={kwargs!r} validate={case['validate']} fmt={case['fmt']}"))
+    if "star" in va:
+        want_l = [expected_value(va["star"]["ann"], dec(x), case["fmt"], case["validate"]) for x in va["star"]["vals"]]
+        if not strict_eq(got["*rest"], want_l):
+            v.append(Violation("variadic-arg-mismatch", f"*rest ({va['star']['ann']}) received {got['*rest']!r}, expected {want_l!r}; signature {src.splitlines()[0]}; args={args!r} kwargs={kwargs!r} validate={case['validate']} fmt={case['fmt']}"))
+    if "dstar" in va:
+        want_d = {k: expected_value(va["dstar"]["ann"], dec(x), case["fmt"], case["validate"]) for k, x in va["dstar"]["vals"].items()}
+        if not strict_eq(got["**extra"], want_d):
+            v.append(Violation("variadic-arg-mismatch", f"**extra ({va['dstar']['ann']}) received {got['**extra']!r}, expected {want_d!r}; signature {src.splitlines()[0]}; args={args!r} kwargs={kwargs!r} validate={case['validate']} fmt={case['fmt']}"))
     return v, obs
 
 
@@ -515,7 +560,7 @@ class C08(Check):
     pid = "C08"
     rule = ("Case = generated task function (1-6 parameters: un-annotated / Any / int / str / float / bool / List[int] "
             "/ Optional[int] / Dict[str,int] / pydantic models / dataclasses / containers of models, with or without "
-            "default, positional-or-keyword or keyword-only, 0-2 dependency parameters (Context, TaskiqDepends) at "
+            "default, positional-or-keyword or keyword-only, optionally *rest / **extra (annotated or not) collecting 0-3 further values, 0-2 dependency parameters (Context, TaskiqDepends) at "
             "random positions, sync or async), a random positional/keyword split of the supplied arguments, values "
             "from JSON trees, model and dataclass instances, convertible and inconvertible strings; validate_params "
             "on/off; formatter in {Proxy+JSONSerializer, Proxy+PickleSerializer, JSONFormatter}. Path: real "
